@@ -106,16 +106,12 @@ type placementStaticPath struct {
 }
 
 // Check the ACL
+// The ACL is parsed when the queue is created (security.NewACL): the first space separates the user list from the
+// group list, any further space, leading and trailing ones included, makes the queue creation fail.
+// The same test on the same unmodified string is used here: what passes the validation must be loadable.
 func checkACL(acl string) error {
-	// trim any white space
-	acl = strings.TrimSpace(acl)
-	// handle special cases: deny and wildcard
-	if len(acl) == 0 || acl == common.Wildcard {
-		return nil
-	}
-
 	// should have no more than two groups defined
-	fields := strings.Fields(acl)
+	fields := strings.Split(acl, common.Space)
 	if len(fields) > 2 {
 		return fmt.Errorf("multiple spaces found in ACL: '%s'", acl)
 	}
